@@ -603,18 +603,28 @@ func deref(t types.Type) types.Type {
 
 // initSkip lists packages whose init is never executed (their globals read
 // as zero values; functions that need them are intrinsics).
+var initSkipExact = map[string]bool{}
 var initSkipPrefix = []string{
-	"runtime", "os", "syscall", "errors", "iter", "weak", "unique", "internal/", "sync", "reflect", "testing", "log", "crypto/", "hash/",
-	"net/http", "golang.org/x/sys", "golang.org/x/net", "golang.org/x/crypto", "time", "fmt", "io/", "io",
-	"github.com/prometheus", "github.com/semihalev/zlog", "github.com/quic-go", "k8s.io", "context",
-	"math/rand", "encoding/json", "encoding/gob", "text/", "html/", "regexp", "flag", "path/filepath",
-	"github.com/BurntSushi", "github.com/spf13", "github.com/fsnotify", "vendor/", "compress/", "mime", "expvar",
-	"github.com/semihalev/sdns/internal/metric",
+	"runtime/", "os/", "internal/", "sync/", "crypto/", "hash/", "net/http", "golang.org/x/",
+	"github.com/prometheus/", "github.com/semihalev/zlog", "github.com/quic-go", "k8s.io/", "sigs.k8s.io/", "math/rand",
+	"encoding/json", "encoding/gob", "encoding/asn1", "encoding/pem", "text/", "html/", "path/", "log/", "github.com/BurntSushi", "github.com/spf13",
+	"github.com/fsnotify", "vendor/", "compress/", "io/", "testing/", "github.com/semihalev/sdns/internal/metric",
+	"google.golang.org/", "gopkg.in/", "go.yaml.in/", "github.com/google/", "github.com/go-openapi/", "mime/", "go/", "debug/", "database/", "archive/", "image/", "embed",
+}
+
+func init() {
+	for _, p := range []string{"runtime", "os", "syscall", "errors", "iter", "weak", "unique", "sync", "reflect", "testing",
+		"log", "time", "fmt", "io", "context", "flag", "regexp", "mime", "expvar", "net", "bufio", "path", "maps", "slices", "cmp", "unsafe"} {
+		initSkipExact[p] = true
+	}
 }
 
 func skipInit(path string) bool {
+	if initSkipExact[path] {
+		return true
+	}
 	for _, p := range initSkipPrefix {
-		if path == p || strings.HasPrefix(path, p+"/") || (strings.HasSuffix(p, "/") && strings.HasPrefix(path, p)) {
+		if strings.HasPrefix(path, p) {
 			return true
 		}
 	}
